@@ -126,7 +126,7 @@ CHECKS.update({
         "quick": T(40000, 60), "thorough": T(1200000, 900),
         "rule": "seeds come in families of 400: slot 0 is the fault-free census of one wrapped call in a sampled (world, sink state, output, format) scenario; slots 1..n enumerate every single fault = (intercepted call of the census) x (plausible errno set of that call kind, plus short read/write and early EOF); remaining slots are sampled fault pairs; a faulted call that returns to its caller is followed by the same call without the fault (what the failure left behind must not stop the next exec). "
                 "Sink states: healthy, directory absent, EACCES, (nearly) full disk, socket path absent / refused / no permission / queue full and unread / stream-type. non-trivial = the fault fired inside the call (or census); distinct = (scenario, fault kind, n-th, errno)",
-        "probes": ["census", "pair", "queue_full", "eagain_seen", "enospc"],
+        "probes": ["census", "pair", "persistent_fault", "queue_full", "eagain_seen", "enospc"],
         "extra_coverage": {"errno_sets": "open: ENOENT EACCES EMFILE ENFILE ENOMEM ELOOP ENOTDIR EISDIR EROFS ENXIO ENOSPC; read: EIO EINTR short eof; write: ENOSPC EIO EDQUOT EFBIG EINTR short; close: EIO ENOSPC; socket: EMFILE ENFILE ENOBUFS EAFNOSUPPORT ENOMEM EACCES; connect: ENOENT ECONNREFUSED EACCES EAGAIN EPROTOTYPE; send: EAGAIN ECONNREFUSED ENOTCONN EMSGSIZE ENOBUFS EPIPE ECONNRESET; stat ttyname_r getcwd gethostname getlogin_r getpwuid_r getgrgid_r getutline_r time gettimeofday: their documented errors"},
     },
     "C16": {
@@ -138,7 +138,7 @@ CHECKS.update({
     },
 })
 MANIFEST_TEXT.update({
-    "C03": {"level_text": "fault enumeration: for each sampled scenario every intercepted call of the fault-free census fails once with each errno of its kind's set (plus short/EOF variants), and pairs are sampled; invariants per run: real exec reached exactly once with the caller's result delivered, no simulated call that would wait for a peer (send on a full queue with neither O_NONBLOCK nor MSG_DONTWAIT, syslog(), sleep/poll/lock), no SIGPIPE-raising write, step bound 4 x census + 64, no sanitizer abort", "level_note": _ASSUME + "; allocation failure is outside the domain; EPIPE raises no SIGPIPE on AF_UNIX datagram sockets (probed on this kernel)"},
+    "C03": {"level_text": "fault enumeration: for each sampled scenario every intercepted call of the fault-free census fails once with each errno of its kind's set (plus short/EOF variants), pairs are sampled, and persistent faults (a call kind that keeps failing from its n-th call on) are sampled; invariants per run: real exec reached exactly once with the caller's result delivered, no simulated call that would wait for a peer (send on a full queue with neither O_NONBLOCK nor MSG_DONTWAIT, syslog(), sleep/poll/lock), no SIGPIPE-raising write, step bound 4 x census + 64, no sanitizer abort", "level_note": _ASSUME + "; allocation failure is outside the domain; EPIPE raises no SIGPIPE on AF_UNIX datagram sockets (probed on this kernel)"},
     "C16": {"level_text": "before/at-exec/after snapshots of descriptors (simulated and real), library-attributed live heap, environ, cwd, umask, signal mask and handlers over repeated calls, fault-free and under the single-fault enumeration of C03, in both builds", "level_note": _ASSUME + "; heap attribution = allocations made while the calling thread is inside the library (sanitizer hooks), one warm-up call excluded"},
 })
 CHECKS.update({
@@ -153,9 +153,9 @@ CHECKS.update({
     "C10": {
         "variants": ["asan-ts"], "level": "exploration",
         "quick": T(1600, 70), "thorough": T(32000, 900),
-        "rule": "families of 160 seeds per output type: slot 0 = census of the scheduling points thread B passes inside one wrapped call; slot k = a real fork() taken by thread A exactly when B is parked at its k-th scheduling point (every point, in particular those where B owns the registry mutex), the child then makes a wrapped exec call and reports its history over a pipe; remaining slots = sampled points, alternately with a grandchild fork and with one or two further parent threads parked at seeded points inside their own wrapped calls when the fork happens. fork handlers registered by the library (pthread_atfork -> __register_atfork) are run as library code. "
+        "rule": "families of 160 seeds per output type: slot 0 = census of the scheduling points thread B passes inside one wrapped call; slot k = a real fork() taken by thread A exactly when B is parked at its k-th scheduling point (every point, in particular those where B owns the registry mutex), the child then makes a wrapped exec call and reports its history over a pipe; remaining slots = sampled points, alternately with a grandchild fork, with one or two further parent threads parked at seeded points inside their own wrapped calls when the fork happens, and (every fifth) as a batch in which two or three parent threads fork at the same time, one or two times each, under a seeded schedule (random walk or PCT) with scheduling points in the handlers' mutex operations and at the fork itself, next to a thread that only makes wrapped calls; every such fork has a real child that reports its own call. fork handlers registered by the library (pthread_atfork -> __register_atfork) are run as library code. "
                 "non-trivial = fork happened while B was inside the library; distinct = (mode, fork point, output)",
-        "probes": ["census", "grandchild", "three_or_more_parent_threads", "atfork_handlers", "forker_waited_for_mutex"],
+        "probes": ["census", "grandchild", "three_or_more_parent_threads", "atfork_handlers", "forker_waited_for_mutex", "fork_window", "concurrent_forkers", "concurrent_forkers_with_child"],
     },
     "C11": {
         "variants": ["asan-ts", "asan-nots", "asan-ts+reuse"], "variant_share": {"asan-ts": 0.8, "asan-nots": 0.7, "asan-ts+reuse": 0.5}, "level": "exploration",
@@ -168,7 +168,7 @@ CHECKS.update({
         "variants": ["asan-ts"], "level": "exploration",
         "quick": T(4000, 70), "thorough": T(100000, 900),
         "rule": "one run = 2-6 (thorough: 2-16) writer threads, each logging 1-3 (1-5) records of 1 byte .. the configured maximum (boundary sizes 4096, 8192, limit) to the same file with pre-existing content (also devtty/devnull), the scheduler switching writers at every simulated open/write/close; "
-                "structural: description opened O_APPEND without O_TRUNC and the record delivered by exactly one write; historical: final content = old content + permutation of whole records. non-trivial = writers overlapped; distinct = hash of the (writer, syscall) interleaving",
+                "one writer call in ten has its own write or close fail (ENOSPC, EIO): it may lose its own record, never anybody else's (ftruncate is part of the simulated file layer). structural: description opened O_APPEND without O_TRUNC and the record delivered by exactly one write; historical: final content = old content + permutation of whole records. non-trivial = writers overlapped; distinct = hash of the (writer, syscall) interleaving",
         "probes": ["record_ge_4096", "record_ge_65536", "16_writers"],
         "assumptions": ["simulated st_blksize / stdio buffer 4096", "writers are threads of one process; separate processes differ only in not sharing the registry, which is never held during output"],
     },
@@ -213,7 +213,7 @@ MANIFEST_TEXT.update({
 _TECH = {
     "C01": "deterministic simulation: production wrappers hosted under a simulated OS with an exec recorder at dlsym(RTLD_NEXT); seeded generation of inputs, configurations, exec outcomes and sampled I/O faults; history oracle",
     "C02": "deterministic simulation used as a sanitizer harness: seeded and boundary-directed generation of configuration bytes, exec inputs and process states against ASan/UBSan, step cap and watchdog (no schedule or fault dimension)",
-    "C03": "deterministic simulation with fault injection: census of intercepted calls, then every single fault (call x errno set, short/EOF), sampled pairs, sink states; would-block / would-signal / step-bound invariants",
+    "C03": "deterministic simulation with fault injection: census of intercepted calls, then every single fault (call x errno set, short/EOF), sampled pairs and persistent faults, sink states; would-block / would-signal / step-bound invariants",
     "C04": "deterministic simulation: all sinks of the simulated OS watched, record compared with the reference model, bytes counted as delivered only when handed to the simulated kernel before the EXEC event",
     "C05": "reference-model refinement inside the simulated OS with boundary-directed limits (no schedule or fault dimension)",
     "C06": "deterministic simulation of call histories in one process image (both builds), earlier calls may carry injected faults; marker and model oracles",
